@@ -30,7 +30,7 @@ _SIZES = [(1, 1), (1, 2), (2, 1), (1, 3), (3, 1), (2, 2), (2, 3), (3, 2), (1, 4)
 _DIRS = ((-1, 0), (1, 0), (0, -1), (0, 1))
 
 
-def _split(rng, rect, out, p):
+def _split(rng, rect, out, p, decay=0.8):
     y0, x0, y1, x1 = rect
     can_h = y1 - y0 >= 2
     can_w = x1 - x0 >= 2
@@ -39,12 +39,12 @@ def _split(rng, rect, out, p):
         return
     if can_h and (not can_w or rng.random() < 0.5):
         m = rng.randint(y0 + 1, y1 - 1)
-        _split(rng, (y0, x0, m, x1), out, p * 0.8)
-        _split(rng, (m, x0, y1, x1), out, p * 0.8)
+        _split(rng, (y0, x0, m, x1), out, p * decay, decay)
+        _split(rng, (m, x0, y1, x1), out, p * decay, decay)
     else:
         m = rng.randint(x0 + 1, x1 - 1)
-        _split(rng, (y0, x0, y1, m), out, p * 0.8)
-        _split(rng, (y0, m, y1, x1), out, p * 0.8)
+        _split(rng, (y0, x0, y1, m), out, p * decay, decay)
+        _split(rng, (y0, m, y1, x1), out, p * decay, decay)
 
 
 def _free_partition(rng, h, w, k):
@@ -74,17 +74,32 @@ def _random_solution(rng, h, w):
 
 def gen_problem(rng, tier):
     h, w = rng.choice(_SIZES)
+    return _gen(rng, h, w)
+
+
+def extra_program_problems(rng):
+    """Larger boards for the program correspondence only (nothing is enumerated there): one non-square medium board and two
+    with more than 256 cells (a tall and a wide one); many rooms (rectangles split deeper, free partitions with more seeds),
+    in both problem formats."""
+    from . import _loop
+    return [_gen(rng, h, w, big=True) for h, w in _loop.big_shapes(rng)]
+
+
+def _gen(rng, h, w, big=False):
     black = _random_solution(rng, h, w)
     r = rng.random()
     if r < 0.75:
         rects = []
-        _split(rng, (0, 0, h, w), rects, rng.choice([0.6, 0.9, 1.0]))
+        if big:
+            _split(rng, (0, 0, h, w), rects, 1.0, rng.choice([0.9, 0.95]))
+        else:
+            _split(rng, (0, 0, h, w), rects, rng.choice([0.6, 0.9, 1.0]))
         if rng.random() < 0.3:
             rng.shuffle(rects)
         rooms = [[[y, x] for y in range(y0, y1) for x in range(x0, x1)] for y0, x0, y1, x1 in rects]
     else:
         rects = None
-        rooms = _free_partition(rng, h, w, rng.randint(1, min(h * w, 5)))
+        rooms = _free_partition(rng, h, w, rng.randint(h * w // 12, h * w // 6) if big else rng.randint(1, min(h * w, 5)))
         if rng.random() < 0.3:
             for rm in rooms:
                 rng.shuffle(rm)
